@@ -578,7 +578,7 @@ def ddmin_list(lst):
 
 
 def write_replay(prop, base, index, case, od, minimised, execs, dirname=None):
-    dirname = dirname or os.path.join(VERIF_DIR, "replays")
+    dirname = dirname or os.environ.get("VERIF_REPLAY_DIR") or os.path.join(VERIF_DIR, "replays")
     os.makedirs(dirname, exist_ok=True)
     body = {
         "property": prop,
